@@ -5,10 +5,9 @@ set_option linter.unusedSimpArgs false
 namespace Jade.Sys
 
 set_option maxHeartbeats 64000000 in
-theorem plainC_step_b {s s' : Sys} {op : Op} (hn : NodeInv s) (ha : PlainA s) (hb : PlainB s) (hi : PlainC s)
+theorem plainC_step_d {s s' : Sys} {op : Op} (hn : NodeInv s) (ha : PlainA s) (hb : PlainB s) (hi : PlainC s)
     (h : step s op = some s') (hf : op.risky = false) :
-    (∀ p a n, s'.procs p = .node a n → ∀ j ∈ n.running, ¬ HasRow s' j) ∧
-    (∀ B ∈ s'.batches, ∀ h, B.hid = some h → s'.slurm h = some .pending → ∀ j ∈ B.jobs, ¬ HasRow s' j) := by
+    (∀ q a y, s'.procs q = .sub a y → holds y.pc = true → ∀ j ∈ y.toCancel, ¬ HasRow s' j) := by
   have hu := @node_job_unique s hn
   have hm := @mem_unique_batch s.batches hn.batch.jobsNodup
   obtain ⟨⟨⟨r1, r2, r3, r4, r5⟩, l1, l2, l3, -, -, -, -⟩, n1, n2, n3, n4, n5, n6, n7, n8⟩ := hn
@@ -16,7 +15,7 @@ theorem plainC_step_b {s s' : Sys} {op : Op} (hn : NodeInv s) (ha : PlainA s) (h
   obtain ⟨b1, b2, b3, b4, b5⟩ := hb
   obtain ⟨c1, c2, c3, c4, c5, c6⟩ := hi
   cases op <;> (first | (cases hf; done) | skip) <;> step_cases h <;>
-    (refine ⟨?_, ?_⟩ <;> frame_uqb)
+    (skip <;> frame_uqb)
   all_goals first
     | proc_clause
     | exact c6
